@@ -8,4 +8,13 @@ CHECKS = {
           "completely (exhaustive) and samples (ppq, mpq, t) triples as scalars and arrays. Held = no disagreement on any executed call.",
   "note": "Trusted: vmon/refmodels/pitch.py, CPython, numpy. Float results compared with rel. tol. 1e-9; exact .5 ticks are don't-care.",
  },
+ "C16": {
+  "technique": "post-condition hook on the real transpose/transpose_note + deep argument snapshot + exhaustive note x interval table",
+  "text": "Every call of transpose is observed by a hook that snapshots the argument before and after (must be identical, same "
+          "objects), compares each pitched note of the result (tie continuations and grace notes included) with from-scratch "
+          "diatonic arithmetic and everything else structurally with the argument. The driver runs the complete table steps x "
+          "alter -2..2 x octaves 0..8 x 39 intervals x 2 directions through a part and a score, up-then-down identity, the "
+          "chord-root arithmetic, and generated scores with ties/chords/grace notes.",
+  "note": "Trusted: vmon/refmodels/pitch.py, vmon/snapshot.py. Cases whose correct result needs |alter| > 2 are counted out of domain.",
+ },
 }
